@@ -83,7 +83,14 @@ def leaf? (j : Json) : Option Leaf := do
     some (.status ⟨f, tf, nw⟩)
   | _ => none
 
-def storage? (j : Json) : Option Storage := do (← jArr? j).mapM leaf?
+/-- a storage description: a leaf object, `{"t":"multi","children":[...]}`, or an array (= multi) -/
+partial def tree? (j : Json) : Option STree :=
+  match j with
+  | .arr xs => do some (.multi (← xs.toList.mapM tree?))
+  | _ => do
+    match ← jStr? (← jField? j "t") with
+    | "multi" => do some (.multi (← (← jArr? (← jField? j "children")).mapM tree?))
+    | _ => do some (.leaf (← leaf? j))
 
 def dleaf? (j : Json) : Option DLeaf := do
   match ← jStr? (← jField? j "t") with
@@ -95,7 +102,13 @@ def dleaf? (j : Json) : Option DLeaf := do
   | "status" => some (.status (← path? (← jField? j "field")))
   | _ => none
 
-def dstorage? (j : Json) : Option DStorage := do (← jArr? j).mapM dleaf?
+partial def dtree? (j : Json) : Option DTree :=
+  match j with
+  | .arr xs => do some (.multi (← xs.toList.mapM dtree?))
+  | _ => do
+    match ← jStr? (← jField? j "t") with
+    | "multi" => do some (.multi (← (← jArr? (← jField? j "children")).mapM dtree?))
+    | _ => do some (.leaf (← dleaf? j))
 
 /-- ordered record `[[k, v], ...]` -/
 def rec? (j : Json) : Option Rec := do
@@ -116,11 +129,11 @@ def outOptJ : Except Err (Option J) → Json
   | .ok none => ok .null
   | .error e => err (errStr e)
 
-def touchKeys (s : Storage) : List Str :=
-  s.filterMap (fun | .ann c => some c.touchKey | .status _ => none)
+def touchKeys (s : STree) : List Str :=
+  s.flatten.filterMap (fun | .ann c => some c.touchKey | .status _ => none)
 
-def diffKeys (s : DStorage) : List Str :=
-  s.filterMap (fun | .ann c => some c.key | .status _ => none)
+def diffKeys (s : DTree) : List Str :=
+  s.flatten.filterMap (fun | .ann c => some c.key | .status _ => none)
 
 def noSfx : Json := err "no-sfx"
 
@@ -141,44 +154,44 @@ def handle : DrvHandler := fun op args =>
   | "C16.isdrs", [body] => do
       some (ok (.bool (isDRS (← toJ body))))
   | "C16.fetch", [s, tbl, body, k] => do
-      let s ← storage? s
+      let s ← tree? s
       let tbl ← sfxTable? tbl
       let k := (← jStr? k).toList
       if !covered tbl k then some noSfx else
-      some (outOptJ (fetch (mkEnv tbl) (← toJ body) k s))
+      some (outOptJ (STree.fetch (mkEnv tbl) (← toJ body) k s))
   | "C16.store", [s, tbl, body, patch, k, r] => do
-      let s ← storage? s
+      let s ← tree? s
       let tbl ← sfxTable? tbl
       let k := (← jStr? k).toList
       if !covered tbl k then some noSfx else
-      some (outJ (store (mkEnv tbl) (← toJ body) k (← rec? r) (← toJ patch) s))
+      some (outJ (STree.store (mkEnv tbl) (← toJ body) k (← rec? r) (← toJ patch) s))
   | "C16.purge", [s, tbl, body, patch, k] => do
-      let s ← storage? s
+      let s ← tree? s
       let tbl ← sfxTable? tbl
       let k := (← jStr? k).toList
       if !covered tbl k then some noSfx else
-      some (outJ (purge (mkEnv tbl) (← toJ body) k (← toJ patch) s))
+      some (outJ (STree.purge (mkEnv tbl) (← toJ body) k (← toJ patch) s))
   | "C16.touch", [s, tbl, body, patch, v] => do
-      let s ← storage? s
+      let s ← tree? s
       let tbl ← sfxTable? tbl
       if !(touchKeys s).all (covered tbl) then some noSfx else
       let v ← toJ v
       match v with
-      | .null | .str _ => some (outJ (touch (mkEnv tbl) (← toJ body) v (← toJ patch) s))
+      | .null | .str _ => some (outJ (STree.touch (mkEnv tbl) (← toJ body) v (← toJ patch) s))
       | _ => none
   | "C16.clear", [s, essence] => do
-      let s ← storage? s
-      some (outJ (clear (← toJ essence) s))
+      let s ← tree? s
+      some (outJ (STree.clear (← toJ essence) s))
   | "C16.dfetch", [s, tbl, body] => do
-      let s ← dstorage? s
+      let s ← dtree? s
       let tbl ← sfxTable? tbl
       if !(diffKeys s).all (covered tbl) then some noSfx else
-      some (outOptJ (dfetch (mkEnv tbl) (← toJ body) s))
+      some (outOptJ (DTree.fetch (mkEnv tbl) (← toJ body) s))
   | "C16.dstore", [s, tbl, body, patch, essence] => do
-      let s ← dstorage? s
+      let s ← dtree? s
       let tbl ← sfxTable? tbl
       if !(diffKeys s).all (covered tbl) then some noSfx else
-      some (outJ (dstore (mkEnv tbl) (← toJ body) (← toJ essence) (← toJ patch) s))
+      some (outJ (DTree.store (mkEnv tbl) (← toJ body) (← toJ essence) s (← toJ patch)))
   | _, _ => none
 
 end Kopf.Drv.C16
